@@ -6,6 +6,7 @@ From Coq Require Import ZArith List Bool.
 From BV Require Import Lib.Cases Model.LaxSem Model.Restart Model.Pool
      Proofs.PoolJobs Proofs.PoolInv Proofs.PoolTick Proofs.PoolCor.
 From BV Require Gen.G_pool_shape.
+From BV Require Import Proofs.PoolSup.
 Import ListNotations.
 Open Scope Z_scope.
 
@@ -100,6 +101,15 @@ Definition c04_cfg := mkcfg 2 None None None (Some 5) 1 false false.
 Definition c04_tr : list event :=
   [EApply None None None None; EApply None None None None; EAck 0 None 0; EAck 1 None 1;
    EExit 0 (-11); ETick; EAdvance 10; ETick; EAdvance 1; ETick].
+(* the loss is also reported on a pool that has been closed and has lost its last worker: the
+   result handler's drain loop calls _join_exited_workers(shutdown=True), which treats every job
+   exactly as a supervision pass does (so C04_deadline and the other per-job theorems about
+   do_tick apply to it), also on the round that ends by raising WorkersJoined *)
+Theorem C04_drain_loop_reports_losses_like_a_pass : forall s,
+    jobs (fst (do_join_shutdown s)) = jobs (fst (do_tick s)).
+Proof. exact join_shutdown_jobs. Qed.
+Print Assumptions C04_drain_loop_reports_losses_like_a_pass.
+
 Example C04_witness :
   map (fun x => (ready x, value x, worker_lost x)) (jobs (run c04_cfg c04_tr))
   = [(true, Some (PLost (-11) 0), Some (1000, -11)); (false, None, None)].
